@@ -6,6 +6,7 @@ import (
 	"os"
 	"path/filepath"
 	"sort"
+	"strconv"
 	"strings"
 	"sync/atomic"
 	"time"
@@ -48,6 +49,10 @@ type Driver struct {
 	Aborted string
 
 	inj *injection
+	// MaxID is the highest snapshot id seen in the id map so far; ids come from a
+	// monotonic bbolt sequence that only advances with a committed creation, so the next
+	// snapshot gets MaxID+1.
+	MaxID int
 
 	Before, After []*Model
 	Classes       map[string]int
@@ -315,6 +320,9 @@ func (d *Driver) Step(i int, op Op) {
 		}
 		chain := pre.ChainFromParent(op.Parent)
 		bad := d.badAncestors(pre, chain)
+		if op.Plant != "" {
+			d.plant(op.Plant)
+		}
 		var ms []mount.Mount
 		var err error
 		if op.Kind == "prepare" {
@@ -565,6 +573,23 @@ func (d *Driver) reopen(op Op) {
 	d.class("reopen")
 }
 
+// plant puts a filesystem fault under snapshots/: something named like the next id.
+func (d *Driver) plant(what string) {
+	p := filepath.Join(d.Cfg.Root, "snapshots", strconv.Itoa(d.MaxID+1))
+	if _, err := os.Lstat(p); err == nil {
+		return
+	}
+	switch what {
+	case "dir":
+		_ = os.MkdirAll(filepath.Join(p, "fs"), 0o755)
+		_ = os.MkdirAll(filepath.Join(p, "work"), 0o711)
+		_ = os.WriteFile(filepath.Join(p, "fs", "LEFTOVER"), []byte("left by a dead process"), 0o644)
+	case "file":
+		_ = os.WriteFile(p, []byte("not a directory"), 0o644)
+	}
+	d.Cfg.Count("planted_next_id_"+what, 1)
+}
+
 // judgeUnmounts applies clause (d) to the Unmount calls of one operation.
 func (d *Driver) judgeUnmounts(op Op, evs []recfs.Event) {
 	for _, ev := range evs {
@@ -598,6 +623,10 @@ func (d *Driver) judgeCreate(op Op, pre *Model, labels map[string]string, chain,
 		kind = View
 	}
 	d.Cfg.Count("result_"+op.Kind+"_"+errClass(err), 1)
+	if op.Plant != "" {
+		d.Cfg.Count("planted_call_result_"+errClass(err), 1)
+		d.class("planted_fault")
+	}
 	par := pre.Snaps[op.Parent]
 	parentOK := op.Parent == "" || (par != nil && par.Kind == Committed)
 	if pre.Snaps[op.Key] != nil || !parentOK {
@@ -979,6 +1008,11 @@ func (d *Driver) afterOp(op Op) {
 	for n, info := range obs {
 		if d.M.Snaps[n] == nil {
 			fail("extra", fmt.Sprintf("Walk reports %s (%s) which the model does not have", n, KindName(info.Kind)))
+		}
+	}
+	for id := range ids {
+		if n, err := strconv.Atoi(id); err == nil && n > d.MaxID {
+			d.MaxID = n
 		}
 	}
 	if len(ids) != len(obs) {
